@@ -378,6 +378,7 @@ def run(p, led, tier):
                 led.ok("C14-R5", key, where(m, named[0]), f"calls {short(named[0], 50)} (receiver resolved by name)")
             else:
                 led.fail("C14-R5", key, where(m, m.node), "kill path no longer goes through abort_operation")
+    fault_table(p, led, tier)
 
 
 # ----------------------------------------------------------------------
@@ -552,3 +553,115 @@ def _write_receiver(n, fld):
         if isinstance(t, ast.Attribute) and t.attr == fld:
             return t.value
     return None
+
+
+# ======================================================================
+# R6 — fault enumeration by abstract interpretation: the statement's own quantifier
+# (request lists over registered resources incl. repeats and resources held by others, pre-emptable or not;
+#  a fault at every callback step), interpreted on the source with adversarial callbacks.
+def fault_table(p, led, tier):
+    import itertools
+    from ..fdai import Interp, Obj, PyRaise, ExcVal, Unknown, explore, Imprecise, stub
+    system = p.cls("CoordinationSystem", "operon_ai/coordination/system.py")
+    ctrl = p.cls("CellCycleController", "operon_ai/coordination/controller.py")
+    lock = p.cls("ResourceLock", "operon_ai/coordination/types.py")
+    octx = p.cls("OperationContext", "operon_ai/coordination/controller.py")
+    cp_cls = p.cls("Checkpoint", "operon_ai/coordination/controller.py")
+    PH = p.cls("Phase", "operon_ai/coordination/types.py")
+    execop = p.method("CoordinationSystem", "execute_operation")
+    names = ("r1", "r2", "r3") if tier == "thorough" else ("r1", "r2")
+    maxlen = 3 if tier == "thorough" else 2
+    lists = [()] + [l for k in range(1, maxlen + 1) for l in itertools.product(names, repeat=k)]
+    # pre-state of each resource: free / held by another op (not pre-emptable) / held by another lower-priority op (pre-emptable)
+    prestates = list(itertools.product(("free", "held", "preemptable"), repeat=len(names)))
+    led.rule("C14-R6", "for every request list × resource pre-state × fault at each callback step: afterwards the operation owns nothing, is not active, foreign locks are untouched, work ran at most once while holding everything, validation only after work, success only if both succeeded", 20)
+    bad = []
+    n_runs = [0]
+    n_paths = [0]
+    for req in lists:
+        for pre in prestates:
+            def go(o):
+                it = Interp(p, o)
+                it.stubs["PriorityInheritance.__init__"] = lambda interp, args, kwargs: None
+                sysobj = it.instantiate(system, [], {})
+                c = sysobj.fields["controller"]
+                other = it.instantiate(octx, [], dict(operation_id="other", agent_id="x", priority=1))
+                c.fields["active_operations"]["other"] = other
+                for nm_, st in zip(names, pre):
+                    lk = it.instantiate(lock, [], dict(resource_id=nm_, allow_preemption=(st == "preemptable")))
+                    if st != "free":
+                        lk.fields.update(owner="other", owner_priority=1, hold_count=1)
+                        other.fields["acquired_resources"][nm_] = lk
+                    c.fields["resources"][nm_] = lk
+                # user checkpoints on G1, S, G2: arbitrary predicates (return anything / raise)
+                for ph in ("G1", "S", "G2"):
+                    phv = it.enum_member(PH, ph)
+                    default = c.fields["checkpoints"].get(phv, [])
+                    c.fields["checkpoints"][phv] = list(default) + [it.instantiate(cp_cls, [], dict(phase=phv, condition=Unknown(f"user_checkpoint_{ph}"), name=f"user_{ph}"))]
+                log = []
+
+                @stub
+                def work(interp, args, kwargs):
+                    owned = {nm_: c.fields["resources"][nm_].fields["owner"] for nm_ in set(req)}
+                    log.append(("work", owned))
+                    k = interp.o.choose(2, "work returns / raises")
+                    if k == 1:
+                        raise PyRaise(ExcVal("RuntimeError", ("work failed",)))
+                    return "result"
+
+                @stub
+                def validate(interp, args, kwargs):
+                    log.append(("validate", len([x for x in log if x[0] == "work"])))
+                    k = interp.o.choose(3, "validate true / false / raises")
+                    if k == 2:
+                        raise PyRaise(ExcVal("RuntimeError", ("validator failed",)))
+                    return k == 0
+                use_validate = it.o.choose(2, "validate_fn given / None") == 0
+                try:
+                    r = it.call_fi(execop, [sysobj, "op", "agent", work, list(req), validate if use_validate else None, 5], {})
+                    res = dict(success=r.fields.get("success"))
+                except PyRaise as e:
+                    res = dict(raised=repr(e.exc))
+                locks_ = {nm_: (c.fields["resources"][nm_].fields["owner"], c.fields["resources"][nm_].fields["hold_count"]) for nm_ in names}
+                res.update(locks=locks_, active="op" in c.fields["active_operations"], log=log)
+                return res
+            try:
+                paths = explore(go, max_paths=4000)
+            except Imprecise as e:
+                raise AnchorError(f"execute_operation could not be interpreted for request {req}, pre-state {pre}: {e}")
+            n_runs[0] += 1
+            for _, r in paths:
+                n_paths[0] += 1
+                tag = f"request={list(req)} pre={dict(zip(names, pre))}"
+                if "raised" in r:
+                    bad.append(f"{tag}: execute_operation raised {r['raised']}")
+                if r["active"]:
+                    bad.append(f"{tag}: the operation is still listed as active")
+                for nm_, (own, hc) in r["locks"].items():
+                    st = pre[names.index(nm_)]
+                    if own == "op":
+                        bad.append(f"{tag}: resource {nm_} is still owned by the operation (hold_count {hc})")
+                    if nm_ not in req and (own, hc) != (("other", 1) if st != "free" else (None, 0)):
+                        bad.append(f"{tag}: resource {nm_} was never requested but changed to owner={own} hold_count={hc}")
+                    if nm_ in req and st == "held" and (own, hc) != ("other", 1):
+                        bad.append(f"{tag}: resource {nm_} held by another (not pre-emptable) operation was disturbed: owner={own} hold_count={hc}")
+                works = [x for x in r["log"] if x[0] == "work"]
+                if len(works) > 1:
+                    bad.append(f"{tag}: work function ran {len(works)} times")
+                for w in works:
+                    if any(o_ != "op" for o_ in w[1].values()):
+                        bad.append(f"{tag}: work ran while not holding {[k for k, v in w[1].items() if v != 'op']}")
+                for v in [x for x in r["log"] if x[0] == "validate"]:
+                    if v[1] != 1:
+                        bad.append(f"{tag}: validation ran with work executed {v[1]} times")
+                if r.get("success") is True:
+                    if not works:
+                        bad.append(f"{tag}: success reported although work never ran")
+    key = f"CoordinationSystem.execute_operation ▸ fault table ({len(lists)} request lists × {len(prestates)} pre-states, user checkpoints on G1/S/G2, work and validation adversarial)"
+    if bad:
+        uniq = sorted(set(bad))
+        led.fail("C14-R6", key, where(execop, execop.node), f"{len(uniq)} distinct violation(s) over {n_paths[0]} paths, e.g. {uniq[0]}", path=uniq[:10])
+    else:
+        led.ok("C14-R6", key, where(execop, execop.node), f"{n_runs[0]} configurations, {n_paths[0]} paths: on every one the operation ends owning nothing and de-listed, foreign locks untouched, work ≤ once while holding all, validation after work")
+    led.floors["C14-R6"] = (1, "one aggregated obligation")
+    led.extra["fault_table"] = dict(configurations=n_runs[0], paths=n_paths[0])
